@@ -72,6 +72,7 @@ func runC19(c *report.Ctx) {
 	ruleNilOnSuccess(c)
 	ruleIndexedResultLengthChecked(c, []string{pkgAPI, pkgWallet, pkgTxmgr, pkgKeystore, pkgUtils}, 3)
 	ruleElementMapsAreMade(c)
+	ruleOneSenderPerRequestInput(c)
 	ruleBalanceMapCoversReadyWallets(c)
 	ruleBalanceLookupPresence(c)
 	ruleUnmarshalLeavesKeyUsable(c)
